@@ -66,6 +66,7 @@ class C14(Prop):
         "C14_short_partial": "hypothesis '\\n' not in s: CPython's `$` also matches before a final line feed (F15); C14_short_exact states the behaviour on all strings",
         "C14_type_partial": "hypothesis '\\n' not in s (F15); C14_type_exact is the statement for all strings",
         "C14_version_partial": "hypothesis '\\n' not in s: `$` before a final line feed, `.` excludes the line feed (F15); C14_version_exact is the statement for all strings",
+        "C14_create_accepts_spec_partial": "hypothesis: no line feed in the three strings (F15); C14_create_value/C14_create_refuses are the full statements in terms of the predicates",
         "C14_roundtrip_partial": "hypothesis type = ga -> '-' not in short (release and base product): F9, creation is not injective there (C14_not_injective); "
                                  "version free of '-' and '@' and type in the known table are the property's own quantifier (forced: C14_version_dash_witness)",
     }
@@ -538,8 +539,10 @@ MANIFEST = dict(
          "C14_*_partial: equality with the documented language on strings without a line feed (F15 is the excluded region, witnesses decided). "
          "C14_create_value / C14_create_refuses(_bp): create_release_id raises (ValueError) iff a predicate refuses a part. "
          "C14_roundtrip_partial: for parts of any length that the code accepts, known type, version free of '-' and '@', with or without base "
-         "product, parse(create(parts)) = parts, except a dashed short name of type ga (F9: C14_F9_witness, C14_not_injective). "
-         "C14_types_suffix_free (decide on the regenerated table): the first-match loop over RELEASE_TYPES cannot pick a wrong type.",
+         "product, parse(create(parts)) = parts, except a dashed short name of type ga (F9: C14_F9_witness, C14_not_injective; C14_F9_region: the "
+         "round trip fails for EVERY such input, C14_roundtrip_iff: it holds exactly outside that region). "
+         "C14_types_suffix_free (decide on the regenerated table): the first-match loop over RELEASE_TYPES cannot pick a wrong type; "
+         "C14_reorder_harmless: on a table where no entry is a suffix of another, the parser's result does not depend on the table order.",
     note="Partial where the code deviates from the documented behaviour: F15 (trailing line feed accepted by `$`; line feed inside a free-form version "
          "refused) and F9 (dashed short name with type ga is not invertible) are reported as KNOWN-FINDING through predicates on the failing input. "
          "Modelled, not verified: CPython re (validated on every enumerated string), str methods (validated through every create/parse case).",
